@@ -20,14 +20,17 @@ import (
 	"encoding/binary"
 	"encoding/hex"
 	"encoding/json"
+	"errors"
 	"fmt"
 	"io"
+	"iter"
 	"math/big"
 	"math/rand"
 	"os"
 	"path/filepath"
 	"sort"
 	"strings"
+	"time"
 
 	"github.com/ipfs/go-cid"
 	cbor "github.com/ipfs/go-ipld-cbor"
@@ -609,6 +612,11 @@ type c12Case struct {
 	MsgRC int    `json:"msg"`
 }
 
+// failingReader: an underlying reader that breaks (connection reset, short body) — not io.EOF
+type failingReader struct{}
+
+func (failingReader) Read([]byte) (int, error) { return 0, errors.New("connection reset by peer") }
+
 type c12Direct struct {
 	Kind    string `json:"kind"`
 	Tag     string `json:"tag"`
@@ -696,6 +704,8 @@ type c12Stats struct {
 	MsgCases       map[string]int `json:"message_decode"`
 	Samples        []any          `json:"samples"`
 	Direct         []c12Direct    `json:"direct"`
+	Interleaved    int            `json:"interleaved_pairs"`
+	ReaderErrors   int            `json:"reader_errors_at_boundaries"`
 	Files          map[string]any `json:"files"`
 	EncodeChecked  int            `json:"encode_checked"`
 	HashEntries    int            `json:"hash_entries"`
@@ -962,6 +972,98 @@ func init() {
 			account(a)
 			if err := c12WriteArchive(o, a, c12Mutations(r, a, 0, sample), st, &fileNo, i%2 == 1); err != nil {
 				return err
+			}
+		}
+		// --- two archives open at once: Decode(A), Decode(B), only then drain A, then B: each iterator yields ITS archive
+		// --- a reader that fails (not with EOF) exactly between two sections: the failure is forwarded as an error item
+		var pool []*c12Archive
+		for i := 0; i < 12; i++ {
+			a, err := c12Random(r, 2+r.Intn(5), 60)
+			if err != nil {
+				return err
+			}
+			pool = append(pool, a)
+		}
+		same := func(o c12Obs, a *c12Archive) bool {
+			if !o.hdrOK || o.panicked != "" || len(o.items) != len(a.blocks) {
+				return false
+			}
+			for k, it := range o.items {
+				if !it.ok || !bytes.Equal(it.cid, a.blocks[k].cid) || !bytes.Equal(it.data, a.blocks[k].data) {
+					return false
+				}
+			}
+			return true
+		}
+		drain := func(it iter.Seq2[ipld.Block, error], o *c12Obs) {
+			for blk, err := range it {
+				if err != nil {
+					// a consumer stops at the first error (a reader that keeps failing would be asked again and again)
+					o.items = append(o.items, c12Item{})
+					break
+				}
+				o.items = append(o.items, c12Item{true, []byte(blk.Link().Binary()), append([]byte{}, blk.Bytes()...)})
+			}
+		}
+		for i := 0; i+1 < len(pool); i++ {
+			a, b := pool[i], pool[i+1]
+			var oa, ob c12Obs
+			done := make(chan string, 1)
+			go func() {
+				p := recovered(func() {
+					_, ia, ea := car.Decode(bytes.NewReader(a.bytes))
+					_, ib, eb := car.Decode(bytes.NewReader(b.bytes))
+					if ea != nil || eb != nil {
+						return
+					}
+					oa.hdrOK, ob.hdrOK = true, true
+					drain(ia, &oa)
+					drain(ib, &ob)
+				})
+				if p != nil {
+					done <- fmt.Sprint(p)
+				} else {
+					done <- ""
+				}
+			}()
+			select {
+			case pn := <-done:
+				oa.panicked = pn
+			case <-time.After(20 * time.Second):
+				oa.panicked = "hang: draining two interleaved archives did not finish"
+			}
+			st.Interleaved++
+			if !same(oa, a) || !same(ob, b) {
+				st.Direct = append(st.Direct, c12Direct{"interleaved-decode", "two archives decoded before either is drained", hex.EncodeToString(a.bytes) + " / " + hex.EncodeToString(b.bytes),
+					"each iterator must yield exactly the blocks of its own archive", c12ObsString(oa) + " / " + c12ObsString(ob)})
+			}
+		}
+		for _, a := range pool {
+			bounds := a.bounds // bounds[k] = offset where section k starts (k blocks precede it)
+			if len(bounds) != len(a.blocks)+1 {
+				continue
+			}
+			for k, cut := range bounds[:len(bounds)-1] {
+				var o c12Obs
+				if p := recovered(func() {
+					_, it, err := car.Decode(io.MultiReader(bytes.NewReader(a.bytes[:cut]), failingReader{}))
+					if err != nil {
+						return
+					}
+					o.hdrOK = true
+					drain(it, &o)
+				}); p != nil {
+					o.panicked = fmt.Sprint(p)
+				}
+				st.ReaderErrors++
+				okk := o.hdrOK && o.panicked == "" && len(o.items) == k+1 && !o.items[k].ok
+				for j := 0; okk && j < k; j++ {
+					okk = o.items[j].ok && bytes.Equal(o.items[j].cid, a.blocks[j].cid)
+				}
+				if !okk {
+					st.Direct = append(st.Direct, c12Direct{"reader-error-at-boundary", fmt.Sprintf("the reader fails after section %d of %d", k, len(a.blocks)), hex.EncodeToString(a.bytes),
+						"the blocks before the failure, then an error item — never a clean end", c12ObsString(o)})
+				}
 			}
 		}
 		return writeJSON(o.out, "stats.json", st)
